@@ -96,8 +96,9 @@ impl CommandAcknowledgement {
 impl CommandAcknowledgementHandle {
     /// Marks the flag to indicate that the command execution is done and changes the `CommandStatus`
     pub(crate) fn done(&self, status: CommandStatus) {
-        self.done.store(true, Ordering::Release);
+        // publish the status before the done flag: a poll that observes the flag must never read the placeholder `Pending`
         *self.status.lock() = status;
+        self.done.store(true, Ordering::Release);
         if let Some(waker) = &self.waker_state.lock().waker {
             waker.wake_by_ref();
         }
